@@ -23,7 +23,12 @@ ExportSeqs ==
   \cup { << Exp(a, 1, ""), Exp(b, 1, "") >> : a \in Ats, b \in Ats }                         \* one declaration at two depths / in two sibling packages
   \cup { << Exp(a, 1, x), Exp(a, 2, y) >> : a \in {0, 1, 3}, x \in {"AliasA", "AliasB", ""}, y \in {"AliasA", ""} }   \* two declarations into one package, possibly under one alias
   \cup { << Exp(a, 1, "AliasA"), Exp(b, 1, "AliasB") >> : a \in {0, 1}, b \in {0, 3} }
-Universe == { [kind |-> k, exports |-> e] : k \in Kinds, e \in ExportSeqs }
+(* variants: "distinct" - two differently named public declarations in public modules;
+   "samename" - the two (private) modules declare the SAME name and only declaration 1 is re-exported;
+   "suffix"   - declaration 2 is private and its name (_tail) is a suffix of declaration 1's name (public_tail), which is re-exported. *)
+Variants == {"distinct", "samename", "suffix"}
+Universe == { [kind |-> k, exports |-> e, variant |-> "distinct"] : k \in Kinds, e \in ExportSeqs }
+             \cup { [kind |-> k, exports |-> << Exp(a, 1, x) >>, variant |-> v] : k \in Kinds, a \in {0, 1, 2}, x \in {"", "AliasA"}, v \in {"samename", "suffix"} }
 
 BoundName(e) == IF e.alias = "" THEN DName(e.tgt) ELSE e.alias
 (* what package `at` exposes after executing its imports in order: name -> declaration (later bindings win) *)
@@ -34,6 +39,9 @@ Exposes(s, at, t) ==
 ExposedNames(s, at, t) ==
   { BoundName(s.exports[j]) : j \in { j \in 1..Len(s.exports) : s.exports[j].at = at /\ s.exports[j].tgt = t
                                        /\ \A m \in (j + 1)..Len(s.exports) : ~(s.exports[m].at = at /\ BoundName(s.exports[m]) = BoundName(s.exports[j])) } }
+PublicDecl(s, t) ==
+  IF s.variant = "distinct" THEN TRUE
+  ELSE t = 1 /\ \E a \in Ats : Exposes(s, a, 1)       \* private modules: public only through the re-export, and only the re-exported declaration
 AllowedHomes(s, t) == { ModHome(t) } \cup { PkgPath(at) : at \in { a \in Ats : Exposes(s, a, t) } }
 AllowedNames(s, t) == { DName(t) } \cup UNION { ExposedNames(s, a, t) : a \in Ats }
 Targets(s) == {1} \cup { s.exports[j].tgt : j \in 1..Len(s.exports) }
@@ -64,9 +72,15 @@ Shape(s) == (IF Len(s.exports) = 1 THEN "single" ELSE
 Judge(s, obs) ==
   UNION { LET d == obs.decls[j]
               n == Len(d.occs)
-          IN (IF n = 0 THEN { [property |-> "C03", clause |-> "ExactlyOnce", sig |-> "u2:dropped:" \o Shape(s), expected |-> "1", observed |-> "0"] } ELSE {})
+          IN IF ~PublicDecl(s, d.tgt)
+             THEN (IF n > 0 THEN { [property |-> "C04", clause |-> "NoLeak", sig |-> "u2:" \o s.variant \o ":" \o s.kind \o (IF s.exports[1].alias = "" THEN ":by-name" ELSE ":by-alias"),
+                                    expected |-> "0 occurrences", observed |-> ToString(n)] } ELSE {})
+                  \cup (IF d.jsonpublic = "true" THEN { [property |-> "C04", clause |-> "Flags", sig |-> "u2:" \o s.variant \o ":" \o s.kind \o (IF s.exports[1].alias = "" THEN ":by-name" ELSE ":by-alias"),
+                                                        expected |-> "false", observed |-> "true"] } ELSE {})
+             ELSE
+             (IF n = 0 THEN { [property |-> "C03", clause |-> "ExactlyOnce", sig |-> "u2:dropped:" \o Shape(s), expected |-> "1", observed |-> "0"] } ELSE {})
              \cup (IF n > 1 THEN { [property |-> "C03", clause |-> "ExactlyOnce", sig |-> "u2:duplicated:" \o Shape(s), expected |-> "1", observed |-> ToString(n)] } ELSE {})
-             \cup (IF n = 1 /\ d.occs[1].home \notin AllowedHomes(s, d.tgt) THEN { [property |-> "C03", clause |-> "Home", sig |-> "u2:" \o Shape(s), expected |-> ToString(AllowedHomes(s, d.tgt)), observed |-> ToString(d.occs[1].home)] } ELSE {})
-             \cup (IF n = 1 /\ d.occs[1].name \notin AllowedNames(s, d.tgt) THEN { [property |-> "C03", clause |-> "Name", sig |-> "u2:" \o Shape(s), expected |-> ToString(AllowedNames(s, d.tgt)), observed |-> d.occs[1].name] } ELSE {})
+             \cup (IF s.variant = "distinct" /\ n = 1 /\ d.occs[1].home \notin AllowedHomes(s, d.tgt) THEN { [property |-> "C03", clause |-> "Home", sig |-> "u2:" \o Shape(s), expected |-> ToString(AllowedHomes(s, d.tgt)), observed |-> ToString(d.occs[1].home)] } ELSE {})
+             \cup (IF s.variant = "distinct" /\ n = 1 /\ d.occs[1].name \notin AllowedNames(s, d.tgt) THEN { [property |-> "C03", clause |-> "Name", sig |-> "u2:" \o Shape(s), expected |-> ToString(AllowedNames(s, d.tgt)), observed |-> d.occs[1].name] } ELSE {})
         : j \in 1..Len(obs.decls) }
 =============================================================================
